@@ -6,6 +6,14 @@ from concurrent.futures import ThreadPoolExecutor
 
 def warm(job):
     pid, st = job
+    if not st.get("overlay") or not st.get("pkg"):
+        return   # a stream that has no driver of its own (evaluated Go-side / shares another stream's driver)
+    try:
+        _warm(pid, st)
+    except Exception as e:   # warming is an optimisation: never let it fail the setup
+        print("warm", pid, st.get("name"), "skipped:", e, flush=True)
+
+def _warm(pid, st):
     ov = vf.overlay_for(pid, st["overlay"])
     cmd = ["go", "test", "-tags", "verif", "-overlay", ov, "-vet=off", "-c", "-o", os.path.join(vf.OUT, pid, "driver_%s.test" % st["name"])]
     if st.get("race"):
